@@ -7,7 +7,7 @@ import ast
 from ..cfg import Oracle, build_cfg
 from ..index import AnalysisError, UNKNOWN, norm, unparse
 from ..report import Ctx
-from ..terms import const, evaluator, mentions, show
+from ..terms import cmp_const, const, evaluator, mentions, show
 from ..util import Facts, LockSets, callee_attr, calls_in_node, cfg_nodes_with_call, feasible_paths, lexical_locks, xtext
 
 IDLOCK = "Group._autoidlock"
@@ -91,8 +91,9 @@ def _has_eq(cond, item):
     IDX, P, S = _idx(item), _part(item), _split1(item)
     for (t, v) in cond:
         r = None
-        if t[0] == "cmp" and t[2] in (IDX, ("pcall", ("meth", item, "index"), (const("="),), ())) and t[3][0] == "const" and isinstance(t[3][1], int):
-            c, op = t[3][1], t[1]
+        cc = cmp_const(t)
+        if cc is not None and cc[1] in (IDX, ("pcall", ("meth", item, "index"), (const("="),), ())) and isinstance(cc[2], int):
+            c, op = cc[2], cc[0]
             r = {("eq", -1): False, ("lt", 0): False, ("le", -1): False, ("ge", 0): True, ("gt", -1): True}.get((op, c))
         elif t == ("idx", P, const(1)):
             r = True
@@ -100,8 +101,8 @@ def _has_eq(cond, item):
             r = t[3] == const("=")
         elif t[0] == "cmp" and t[1] == "in" and t[2] == const("=") and t[3] == item:
             r = True
-        elif t[0] == "cmp" and t[2] == ("pcall", "len", (S,), ()) and t[3][0] == "const":
-            r = {("eq", 1): False, ("eq", 2): True, ("lt", 2): False, ("gt", 1): True, ("ge", 2): True, ("le", 1): False}.get((t[1], t[3][1]))
+        elif cc is not None and cc[1] == ("pcall", "len", (S,), ()):
+            r = {("eq", 1): False, ("eq", 2): True, ("lt", 2): False, ("gt", 1): True, ("ge", 2): True, ("le", 1): False}.get((cc[0], cc[2]))
         if r is not None:
             out.add(r == v)
     if len(out) == 2:
